@@ -322,6 +322,8 @@ def build_getter(g, name):
     from katdal.sensordata import RecordSensorGetter, SimpleSensorGetter
     ts = np.array([float(Fraction(t)) for t, _, _ in g['samples']], dtype=np.float64)
     vals = value_array(g['dtype'], [v for _, v, _ in g['samples']])
+    if g.get('fw') and g['dtype'] == 'float':
+        vals = vals.astype({32: np.float32, 16: np.float16}[g['fw']])
     sts = [s for _, _, s in g['samples']]
     if g.get('backing') == 'record' and g['dtype'] in ('float', 'int', 'str'):
         vdt = {'float': 'f8', 'int': 'i8', 'str': 'S8'}[g['dtype']]
@@ -754,7 +756,11 @@ def gen_getter(rng, dtype, dumps, period):
         for s in samples:
             if s[2].isdigit():
                 s[2] = 'unknown'
-    return dict(dtype=dtype, hs=hs, samples=samples, backing=backing, mode=mode)
+    g = dict(dtype=dtype, hs=hs, samples=samples, backing=backing, mode=mode)
+    if dtype == 'float' and backing == 'simple' and rng.random() < 0.3:
+        # narrower float dtypes are numeric sensors too (the generated values are exact in float16)
+        g['fw'] = rng.choice([32, 16])
+    return g
 
 
 def gen_keep(rng, n, concat=False):
@@ -1039,7 +1045,8 @@ def evaluate(ctx, cases, count=True):
                             'restore' if c.get('restore') else 'no-restore')
                     for p in c['parts']:
                         for g in p['getters']:
-                            ctx.tag('samples-' + g.get('mode', '?'), 'dtype-' + g['dtype'], 'backing-' + g['backing'])
+                            ctx.tag('samples-' + g.get('mode', '?'), 'dtype-' + g['dtype'] + (str(g['fw']) if g.get('fw') else ''),
+                                    'backing-' + g['backing'])
                         if p['props']:
                             ctx.tag('default-props')
                     if c.get('aliases'):
